@@ -1394,6 +1394,9 @@ func run(seed int64, n int, dir string, _ []string) {
 	naturalMatrix(g, pr, o, n)
 	namedRefCases(g, pr, o, n)
 	nearIdenticalItemCases(g, pr, o, n)
+	resolveDirectCases(g, o, n)
+	outerOnTernaryCases(g, pr, o, n)
+	fromListCases(g, pr, o, n)
 	subqueryCases(g, pr, o, n)
 	setOperatorCases(g, pr, o, n)
 	lateralModelCases(g, pr, o, n)
